@@ -6,7 +6,7 @@ REPO = os.environ.get('VERIF_REPO', '/repo')
 LEAN = os.path.join(VERIF, 'lean')
 HARNESS = os.path.join(VERIF, 'harness')
 WORK = os.path.join(VERIF, 'work')
-EVIDENCE = os.path.join(VERIF, 'evidence')
+EVIDENCE = os.environ.get('VERIF_EVIDENCE_DIR') or os.path.join(VERIF, 'evidence')   # tools/try_seed.py redirects it: a trial on a changed tree must not rewrite the committed evidence
 IMPL = os.environ.get('VERIF_IMPL') or os.path.join(HARNESS, 'target', 'debug', 'implrunner')   # VERIF_IMPL: tools/coverage.py's instrumented build
 HARNESS_LICHESS = os.path.join(VERIF, 'harness_lichess')
 IMPL_LICHESS = os.path.join(HARNESS_LICHESS, 'target', 'debug', 'inkayaku_verif_harness_lichess')
@@ -102,6 +102,25 @@ def source_tokens_ok(paths):
     return bad
 
 
+def import_closure(modules):
+    """source files of the given modules and of everything they import inside the project (what the theorems depend on);
+    files nobody imports (work in progress) are not part of any proof and are not audited"""
+    seen, todo = {}, list(modules) + ['Driver']
+    while todo:
+        m = todo.pop()
+        if m in seen:
+            continue
+        path = os.path.join(LEAN, *m.split('.')) + '.lean'
+        if not os.path.exists(path):
+            continue
+        seen[m] = path
+        for line in open(path, encoding='utf-8'):
+            mm = re.match(r'\s*(?:public\s+)?import\s+(Inkayaku[\w.]*)', line)
+            if mm:
+                todo.append(mm.group(1))
+    return sorted(seen.values())
+
+
 def lean_sources():
     out = []
     for sub in ('Model', 'Spec', 'Proofs', 'Props', 'Gen'):
@@ -141,7 +160,7 @@ def audit(prop_modules, axioms, required_theorems):
             extra = [a for a in axioms[thm] if a not in ALLOWED_AXIOMS]
             if extra:
                 problems.append('theorem %s depends on non-standard axioms %s' % (thm, extra))
-    bad = source_tokens_ok(lean_sources())
+    bad = source_tokens_ok(import_closure(prop_modules))
     problems += ['forbidden token: ' + b for b in bad]
     return problems
 
@@ -166,7 +185,7 @@ def run_impl(lines, timeout=3600):
     while i < len(lines):
         if hangs >= 6:
             # the implementation blocks again and again: the check fails anyway, do not spend hours on it
-            res += ['HANG'] * (len(lines) - i)
+            res += ['SKIPPED'] * (len(lines) - i)
             break
         rc, out, err = run_lines(IMPL, [], lines[i:], timeout)
         if rc == 0 and len(out) == len(lines) - i:
